@@ -21,6 +21,7 @@ type tncConn struct {
 	ctrlOut  chan<- string
 	dataOut  chan<- []byte
 	dataIn   <-chan []byte
+	pending  []byte // Received data not yet returned by Read
 	eofChan  chan struct{}
 	ctrlIn   broadcaster
 	isTCP    bool
@@ -53,20 +54,22 @@ func (conn *tncConn) Read(p []byte) (int, error) {
 		return 0, nil
 	}
 
+	// Data left over from a frame that did not fit the buffer of the previous call
+	if len(conn.pending) > 0 {
+		n := copy(p, conn.pending)
+		conn.pending = conn.pending[n:]
+		return n, nil
+	}
+
 	data, ok := <-conn.dataIn
 	if !ok {
 		return 0, io.EOF
 	}
 
-	if len(data) > len(p) {
-		panic("too large") // TODO: Handle
-	}
+	n := copy(p, data)
+	conn.pending = data[n:]
 
-	for i, b := range data {
-		p[i] = b
-	}
-
-	return len(data), nil
+	return n, nil
 }
 
 func (conn *tncConn) Write(p []byte) (int, error) {
